@@ -215,6 +215,9 @@ func (w *wstate) setup() {
 	}
 	// ... and every callable attribute in the type tables (type and its MRO) of every value
 	for vi, v := range u.Values {
+		if strings.HasPrefix(v.ID, "sweep:") {
+			continue // the boundary-sweep integers are arguments only; int receivers are in the core universe
+		}
 		o := w.mk(vi)
 		t := o.Type()
 		seen := map[string]bool{}
